@@ -6,6 +6,7 @@ import (
 	"crypto/tls"
 	"fmt"
 	"net"
+	"os"
 	"regexp"
 	"strings"
 	"sync"
@@ -143,6 +144,9 @@ func (g *logGate) Write(p []byte) (int, error) {
 
 var gate = &logGate{}
 
+// worldSeq numbers the worlds of this process (see Run).
+var worldSeq atomic.Int64
+
 // The process-wide logger is replaced once, before any server goroutine exists (assigning it
 // per case would race with goroutines of earlier cases that still read it).
 func init() {
@@ -254,6 +258,11 @@ func run(c Case) *hx.Outcome {
 	cfg := hx.DefaultCfg()
 	cfg.Backend, cfg.NoHTTP = c.Backend, true
 	cfg.SMTPForceTLS = c.TLS
+	// A name of its own per world: after shutdown the kernel may hand the freed ephemeral port to
+	// a listener of another check process running in parallel, and a greeting from that stranger
+	// must not be taken for ours.
+	domain := fmt.Sprintf("c19-%d-%d.test", os.Getpid(), worldSeq.Add(1))
+	cfg.Domain = domain
 	w, err := hx.NewWorld(cfg)
 	if err != nil {
 		o.Failf(pid+":harness", "world: %v", err)
@@ -557,7 +566,7 @@ func run(c Case) *hx.Outcome {
 				break
 			}
 			if err == nil {
-				if l, _ := cl.line(300 * time.Millisecond); strings.HasPrefix(l, greet) {
+				if l, _ := cl.line(300 * time.Millisecond); strings.HasPrefix(l, greet) && strings.Contains(l, domain) {
 					fail("accepted-after-shutdown", "%s after shutdown was requested: the connection was greeted with %q", act, l)
 				}
 				_ = cl.conn.Close()
